@@ -346,7 +346,7 @@ def value_attr(interp, base, attr, st, node):
     if attr in ("shape",):
         co = count_origin(base) | frozenset(t_ for t_ in base.tags if isinstance(t_, tuple) and t_ and t_[0] == "ret")
         return Val(kind="tuple", dim=D0, elem=Val(kind="int", dim=D0, deps=base.deps, pdeps=base.pdeps, tags=co),
-                   deps=base.deps, pdeps=base.pdeps, born=interp.time, tags=co)
+                   deps=base.deps, pdeps=base.pdeps, born=interp.time, tags=co, extra=("shape", base))
     if attr in ("size", "ndim"):
         return Val(kind="int", dim=D0, born=interp.time, tags=count_origin(base) if attr == "size" else frozenset())
     if attr == "flags":
@@ -509,7 +509,108 @@ def _reduce_axis_kw(args, kwargs, pos=1):
     return _arg(args, kwargs, pos, "axis")
 
 
+def shape_last(v):
+    """('shape-last', k, ndim) provenance: the value is an ndim-dimensional array (ndim 1 or 2) whose last axis has the
+    statically known size k (coordinate triples, a constraint matrix assembled from blocks of known width)."""
+    if v is None:
+        return None
+    for t_ in v.tags:
+        if isinstance(t_, tuple) and t_ and t_[0] == "shape-last":
+            return (t_[1], t_[2])
+    return None
+
+
+def broadcast_last(l, r):
+    a, b = shape_last(l), shape_last(r)
+    if a and b:
+        if a[0] == b[0] or 1 in (a[0], b[0]):
+            return (max(a[0], b[0]), max(a[1], b[1]))
+        return None
+    one, other = (a, r) if a else (b, l)
+    if one and one[0] > 1 and one[1] == 2:
+        return one            # (n, k) with k > 1 against a scalar / column / row of k: the last axis keeps k
+    if one and one[0] > 1 and other is not None and other.kind in ("float", "int"):
+        return one
+    return None
+
+
+_SL_SAME = {"roll", "array", "asarray", "asanyarray", "copy", "absolute", "abs", "negative", "ascontiguousarray", "flip", "sign",
+            "sqrt", "square", "nan_to_num", "asfarray", "float64"}
+
+
+def _shape_last_of_call(name, args, kwargs):
+    a0 = args[0] if args else None
+    if name in _SL_SAME:
+        return shape_last(a0)
+    if name == "cross" and len(args) >= 2:
+        a, b = shape_last(args[0]), shape_last(args[1])
+        if (a and a[0] == 3) or (b and b[0] == 3):
+            return (3, max((a or (0, 1))[1], (b or (0, 1))[1]))
+        return None
+    if name in ("add", "subtract", "multiply", "divide", "true_divide") and len(args) >= 2:
+        return broadcast_last(args[0], args[1])
+    if name in ("ones", "zeros", "empty", "full"):
+        shp = a0 if a0 is not None else kwargs.get("shape")
+        if shp is None:
+            return None
+        if shp.items is not None and shp.items and shp.kind in ("tuple", "list"):
+            last = shp.items[-1]
+            if last.has_const() and isinstance(last.const, int) and not isinstance(last.const, bool) and len(shp.items) <= 2:
+                return (last.const, len(shp.items))
+            return None
+        if shp.has_const() and isinstance(shp.const, int) and not isinstance(shp.const, bool):
+            return (shp.const, 1)
+        return None
+    if name in ("hstack", "column_stack", "vstack", "row_stack", "concatenate"):
+        if a0 is None or a0.items is None or not a0.items:
+            return None
+        sl = [shape_last(e) for e in a0.items]
+        if any(x is None for x in sl):
+            return None
+        ax = kwargs.get("axis", args[1] if len(args) > 1 else None)
+        if name == "concatenate":
+            if ax is None or (ax.has_const() and ax.const == 0):
+                name = "vstack" if all(x[1] == 2 for x in sl) else ("hstack" if all(x[1] == 1 for x in sl) else "")
+            elif ax.has_const() and ax.const in (1, -1) and all(x[1] == 2 for x in sl):
+                name = "hstack"
+            else:
+                return None
+        if name == "hstack" and len({x[1] for x in sl}) == 1:
+            return (sum(x[0] for x in sl), sl[0][1])
+        if name == "column_stack":
+            return (sum(x[0] if x[1] == 2 else 1 for x in sl), 2)
+        if name in ("vstack", "row_stack") and len({x[0] for x in sl}) == 1:
+            return (sl[0][0], 2)
+        return None
+    if name == "append" and len(args) >= 2 and "axis" not in kwargs and len(args) == 2:
+        a = shape_last(args[0])
+        if not a or a[1] != 1:
+            return None
+        b = args[1]
+        if b.kind in ("float", "int"):
+            return (a[0] + 1, 1)
+        if b.kind in ("list", "tuple") and b.items is not None and all(i_.kind in ("float", "int") for i_ in b.items):
+            return (a[0] + len(b.items), 1)
+        bs = shape_last(b)
+        if bs and bs[1] == 1:
+            return (a[0] + bs[0], 1)
+    return None
+
+
 def call_ext(interp, ext, node, args, kwargs, st):
+    out = _call_ext(interp, ext, node, args, kwargs, st)
+    cext = canonical(ext)
+    if cext.startswith("numpy.") and cext.count(".") == 1 and isinstance(out, Val) and out.kind in ("arr", "unknown") and shape_last(out) is None:
+        try:
+            sl = _shape_last_of_call(cext.rpartition(".")[2], args, kwargs)
+        except Exception:
+            sl = None
+        if sl:
+            out.tags = out.tags | {("shape-last", sl[0], sl[1])}
+    return out
+
+
+def _call_ext(interp, ext, node, args, kwargs, st):
     ext = canonical(ext)
     t = interp.time
     allv = list(args) + list(kwargs.values())
